@@ -1031,6 +1031,12 @@ func (x *Conn) sendMsgTok(stream int16, msg message.Message, o Outcome, kind str
 	b := buf.Bytes()
 	if codec == lz4Codec && primitive.HeaderFlag(b[1]).Contains(primitive.HeaderFlagCompressed) {
 		body := ValidLz4Body(b[9:])
+		f.SetCompress(false)
+		var pbuf bytes.Buffer
+		if perr := plainCodec.EncodeFrame(f, &pbuf); perr == nil {
+			body = Lz4BodyFor(pbuf.Bytes()[9:], b[9:])
+		}
+		f.SetCompress(true)
 		if len(body) != len(b)-9 {
 			b = append(append([]byte{}, b[:9]...), body...)
 			binary.BigEndian.PutUint32(b[5:9], uint32(len(body)))
@@ -1187,6 +1193,40 @@ func lz4Block(src, dst []byte) (int, error) {
 // block. github.com/pierrec/lz4/v4 v4.0.3's compressor can emit a match offset of 0 (a distance of 65536 truncated to 16
 // bits), which its own decoder tolerates but the format forbids; such a body would make the harness send a malformed
 // frame. An invalid block is replaced by the literal-only encoding of the same data.
+// Lz4BodyFor returns a compressed body that decompresses to exactly `plain`: `compressed` if it does (the library's
+// compressor emits blocks that decode to the right length but the wrong bytes for some inputs with repetitions at distances
+// of 64 KiB and more), otherwise `plain` as one literal run.
+func Lz4BodyFor(plain, compressed []byte) []byte {
+	if len(compressed) >= 4 && int(binary.BigEndian.Uint32(compressed[:4])) == len(plain) {
+		out := make([]byte, len(plain))
+		if w, err := lz4Block(compressed[4:], out); err == nil && w == len(plain) && bytes.Equal(out, plain) {
+			return compressed
+		}
+		if len(plain) == 0 {
+			return compressed
+		}
+	}
+	return lz4Literal(plain)
+}
+
+func lz4Literal(plain []byte) []byte {
+	n := len(plain)
+	b := make([]byte, 4, n+n/255+32)
+	binary.BigEndian.PutUint32(b, uint32(n))
+	if n < 15 {
+		b = append(b, byte(n<<4))
+	} else {
+		b = append(b, 0xf0)
+		rest := n - 15
+		for rest >= 255 {
+			b = append(b, 255)
+			rest -= 255
+		}
+		b = append(b, byte(rest))
+	}
+	return append(b, plain...)
+}
+
 func ValidLz4Body(body []byte) []byte {
 	if len(body) < 4 {
 		return body
